@@ -19,7 +19,7 @@ pub const DEF: PropDef = PropDef {
            default-features = false plus the selected features) must succeed for {none, std, std+serialize} and fail for {serialize without std} with the compile_error text; \
            differential = a corpus generated from VERIF_SEED by the proptest tape strategy (model encoders + corruptions + byte soup; quick 6000, thorough 200000 inputs) is run \
            through 30 entry points, registry lookups, the state machine and the defragmenter by the cfgdiff binary of each buildable configuration; the per-input digests of \
-           every {:?} result must be byte-identical across the three configurations; static_claims = #![forbid(unsafe_code)] present and no `unsafe` token in src/ and build.rs \
+           every {:?} result must be byte-identical across the three configurations, as must six fixed probes (public limits, a never-completing 10 MiB defragmentation stream, a 70000-byte fragmented message, records at 16640/16641 bytes, a ClientHello with 32767 ciphers); static_claims = #![forbid(unsafe_code)] present and no `unsafe` token in src/ and build.rs \
            (source scan), Send + Sync of every public value type and of &'static TlsCipherSuite (compile-time assertions instantiated in this harness). \
            Non-trivial = a corpus input on which at least one entry point returns Ok; distinct by hash of the input.",
     assumptions: &[
@@ -134,17 +134,23 @@ fn run(ctx: &Ctx) {
         let outs = outs?;
         obs.evals_add((n * 3) as u64);
         let base: Vec<&str> = outs[0].1.lines().collect();
-        ensure!(base.len() == n, "harness:cfgdiff-lines", "cfgdiff printed {} lines for {} inputs", base.len(), n);
+        ensure!(base.len() > n, "harness:cfgdiff-lines", "cfgdiff printed {} lines for {} inputs", base.len(), n);
         for (name, out) in &outs[1..] {
             let l: Vec<&str> = out.lines().collect();
-            ensure!(l.len() == n, "harness:cfgdiff-lines", "cfgdiff[{}] printed {} lines for {} inputs", name, l.len(), n);
-            for i in 0..n {
+            ensure!(l.len() == base.len(), "harness:cfgdiff-lines", "cfgdiff[{}] printed {} lines, cfgdiff[{}] {}", name, l.len(), outs[0].0, base.len());
+            for i in 0..base.len() {
                 if l[i] != base[i] {
+                    if i >= n {
+                        // the fixed probes after the corpus: public limits, long defragmentation streams, structures at their size limits
+                        return Err(Fail { sig: format!("C18:differential:probe:{}-vs-{}", outs[0].0, name), msg: format!("configurations `{}` and `{}` disagree on a fixed probe: `{}` vs `{}`", outs[0].0, name, base[i], l[i]) });
+                    }
                     return Err(Fail { sig: format!("C18:differential:{}-vs-{}", outs[0].0, name), msg: format!("configurations `{}` and `{}` disagree on input {}: `{}` vs `{}`\nINPUT {}", outs[0].0, name, hex_short(&inputs[i]), base[i], l[i], hex(&inputs[i])) });
                 }
             }
         }
-        for (i, l) in base.iter().enumerate() {
+        obs.evals_add(((base.len() - n) * 3) as u64);
+        obs.sample(json!({"fixed_probes": base[n..].to_vec()}));
+        for (i, l) in base.iter().take(n).enumerate() {
             let ok: u32 = l.split(' ').nth(1).and_then(|x| x.parse().ok()).unwrap_or(0);
             if ok > 0 {
                 obs.nontrivial(fnv64(&inputs[i]));
